@@ -42,6 +42,7 @@ def obligations(tier):
             obs.append(Ob(f"accessors/hexital/{spec_name(spec)}/n={n}/part{part}", dict(spec=list(spec), n=n, part=part), CFG, fn="run_hex_accessors", weight=n * 5, budget_s=900))
     for host in ("manager", "indicator", "hexital"):
         obs.append(Ob(f"encodings/{host}", dict(host=host, n=4), CFG, fn="run_encodings", weight=20, budget_s=900))
+        obs.append(Ob(f"encodings-aware-timestamps/{host}", dict(host=host, n=4), CFG, fn="run_encodings_aware", weight=20, budget_s=900))
     return obs
 
 
@@ -199,6 +200,54 @@ def run_encodings(ctx, P):
         if host == "hexital":
             for tf, lst in h.get_candles().items():
                 ctx.require(f"every-timeframe-got-the-timestamp[{label}]", all(c.timestamp is not None for c in lst), f"timeframe {tf} has candles without timestamp")
+
+
+def run_encodings_aware(ctx, P):
+    """timezone-aware timestamps: a Candle carrying an aware datetime, a list carrying it, and dicts carrying the same instant
+    as ISO-8601 text with '+00:00' and with the 'Z' suffix - identical results, timestamps stay aware"""
+    from datetime import timezone
+    _, _, Candle, CandleManager, Hexital = lib()
+    n, host = P["n"], P["host"]
+    cs = mk_candles(ctx, n, zero_ok=True)
+    stamps = [c.timestamp.replace(tzinfo=timezone.utc) for c in cs]
+
+    def forms(c, t):
+        iso = t.replace(tzinfo=None).isoformat()
+        base = dict(open=c.open, high=c.high, low=c.low, close=c.close, volume=c.volume)
+        return [("Candle(aware datetime)", lambda: Candle(c.open, c.high, c.low, c.close, c.volume, timestamp=t)),
+                ("dict, ISO text +00:00", lambda: dict(base, timestamp=iso + "+00:00")), ("dict, ISO text Z", lambda: dict(base, timestamp=iso + "Z")),
+                ("Candle(ISO text Z)", lambda: Candle(c.open, c.high, c.low, c.close, c.volume, timestamp=iso + "Z")),
+                ("list, aware datetime last", lambda: [c.open, c.high, c.low, c.close, c.volume, t])]
+
+    def make():
+        if host == "manager":
+            return CandleManager([], timeframe="T2")
+        if host == "indicator":
+            return build("EMA", dict(period=2), candles=[], timeframe="T2")
+        return Hexital("hx", [], [build("EMA", dict(period=2)), build("SMA", dict(period=2), timeframe="T2")])
+
+    def snap_aw(lst):
+        out = snap(lst)
+        for d, c in zip(out, lst):
+            t = c.timestamp
+            d["ts"] = None if t is None else t.replace(tzinfo=None).isoformat()
+            d["zone"] = None if t is None else str(t.tzinfo)
+        return out
+    view = (lambda h: {k: snap_aw(v) for k, v in h.get_candles().items()}) if host == "hexital" else (lambda h: snap_aw(h.candles))
+    labels = [l for l, _ in forms(cs[0], stamps[0])]
+    exp = None
+    for li, label in enumerate(labels):
+        h = make()
+        for c, t in zip(cs, stamps):
+            h.append(forms(c, t)[li][1]())
+        got = view(h)
+        if exp is None:
+            exp = got
+            ctx.observe("reference", exp)
+            lists = h.get_candles().values() if host == "hexital" else [h.candles]
+            ctx.require("timestamps stay aware", all(c.timestamp.tzinfo is not None for lst in lists for c in lst))
+        else:
+            ctx.equal(f"same-result-as-aware-Candle-input[{label}]", got, exp)
 
 
 def _keep(obj):
